@@ -202,7 +202,7 @@ _p('C04', 'The MAL compiler\'s output is the language the source text denotes',
             ('R13', 'malVisitor.visitAssociation')], floor=40)
 
 _p('C05', 'The instance model stays coherent under any history of edits',
-   ['R1', 'R2', 'R3', 'R4', 'R5', 'R18', 'R25'],
+   ['R1', 'R2', 'R3', 'R4', 'R5', 'R18', 'R22', 'R25'],
    decided=['R1: no Model mutator removes from a list it walks',
             'R18: neighbours through a field: both orientations tested explicitly (self-links included)',
             "R5': remove_asset calls the raising remove_asset_from_association once per DISTINCT association",
@@ -239,7 +239,7 @@ _p('C06', 'A model can only hold what the language allows',
             ('R17', 'Model.add_association')], floor=5)
 
 _p('C07', 'Saving and loading a model preserves it (JSON and YAML)',
-   ['R8', 'R4', 'R15', 'R25'],
+   ['R8', 'R4', 'R15', 'R22', 'R25'],
    decided=['R8 i-ii: every key Model._to_dict (with asset/association/attacker_to_dict) writes is read by '
             '_from_dict and every key read unguarded is written unconditionally',
             'R8 iii: conversions invert per declared field type; asset / attacker ids that travelled as mapping '
